@@ -15,6 +15,7 @@ package c11
 import (
 	"encoding/json"
 	"fmt"
+	"os"
 	"sort"
 	"strings"
 	"sync"
@@ -84,7 +85,7 @@ func Run(ctx *core.Ctx) {
 		"js/c11_driver.js (node vm driver, plural rules ja/en/ru/cs)",
 		"TLC, CommunityModules Json, robfig/gettext/po")
 	if ctx.ReplayPath != "" {
-		ctx.ToolError("C11 replays are re-run by the normal tiers (the replay file holds the generated sources and catalogue)")
+		replay(ctx)
 		return
 	}
 
@@ -217,4 +218,33 @@ func exportCases(ctx *core.Ctx, maxParts, maxInner int, locales []string, nshard
 	}
 	sort.Slice(all, func(i, j int) bool { return all[i].ID < all[j].ID })
 	return all, nil
+}
+
+// replay re-runs the pipeline on the single message of a saved violation.
+func replay(ctx *core.Ctx) {
+	b, err := os.ReadFile(ctx.ReplayPath)
+	if err != nil {
+		ctx.ToolError("replay: %v", err)
+		return
+	}
+	var v struct {
+		Replay struct {
+			Case *POCase `json:"case"`
+		} `json:"replay"`
+	}
+	d := json.NewDecoder(strings.NewReader(string(b)))
+	d.UseNumber()
+	if err := d.Decode(&v); err != nil || v.Replay.Case == nil {
+		ctx.ToolError("replay: %s holds no C11 case (%v)", ctx.ReplayPath, err)
+		return
+	}
+	v.Replay.Case.Meaning = ""
+	var locales []string
+	for _, t := range v.Replay.Case.Tr {
+		locales = append(locales, t.Loc)
+	}
+	// a few runs: the extractor is a fresh process each time
+	for i := 0; i < 5; i++ {
+		RunPipeline(ctx, []*POCase{v.Replay.Case}, locales)
+	}
 }
